@@ -1,6 +1,20 @@
 /-
-  Totality of the inline core (`Mistletoe.Core`, the model of mistletoe/core_tokens.py):
-  `find_core_tokens` never raises and its fuels suffice.  Property theorems are in Props/C06.lean.
+  The inline core (`Mistletoe.Core`, the model of mistletoe/core_tokens.py) is total, and the shape
+  of the emphasis matches it returns.  Property theorems are in Props/C06.lean.
+
+  * `Chain lo hi ds`: the delimiter stack is well formed (`type`/`number` in step, not empty),
+    ordered, disjoint, inside `[lo, hi]`.  `emphStep`/`emphLoop_succ` isolate one iteration of the
+    `process_emphasis` loop, `emphStep_spec` shows it cannot raise under the invariant and describes
+    it as a `StepRel` on the decomposed list; `StepRel.chain`, `StepRel.measure` give preservation
+    and the decreasing measure, `emphLoop_inv` the loop (no error, fuel suffices) for any invariant
+    kept by `StepRel`.
+  * `codeSearch_spec`, `matchLinkImage_stop`: matches are not empty and lie inside the string, so the
+    character loop advances; `LoopInv`/`FInv`/`coreLoop_inv` carry an abstract invariant through
+    the character loop (`len(s) + 1 - i` iterations suffice from position `i`).
+  * `DInv` adds the geometry and nesting of the emphasis matches, `CInv` (texts without a backslash)
+    their delimiter characters.
+  * Results: `findCoreTokens_ok`, `tokenizeInner_ok`, `emphasis_wellformed`, `emphasis_nested`,
+    `emphasis_chars`.
 -/
 import Mistletoe.Model.Core
 import Mistletoe.Model.Inline
@@ -1690,5 +1704,252 @@ theorem matchLinkImage_last (s : Str) (offset : Nat) (d : Delim) (fn : Footnotes
       · cases h
         exact ⟨by simp only; omega, Or.inr (by simpa using ho)⟩
       · cases h
+
+/-- `[a, b)` is a run of the delimiter character `ch` in `s` -/
+def RunOf (s : Str) (a b : Nat) (ch : Char) : Prop :=
+  (ch = '*' ∨ ch = '_') ∧ ∀ k, a ≤ k → k < b → s[k]? = some ch
+
+/-- the character before position `i` is neither `*` nor `_` -/
+def Harmless (s : Str) (i : Nat) : Prop := 1 ≤ i ∧ ∃ c0, s[i - 1]? = some c0 ∧ c0 ≠ '*' ∧ c0 ≠ '_'
+
+/-- a delimiter that takes part in `process_emphasis` is a run of `*` or of `_` in the source -/
+def EOK (s : Str) (d : Delim) : Prop :=
+  d.emph = true → ∃ ch, d.type = List.replicate d.number ch ∧ RunOf s d.start d.stop ch
+
+/-- the delimiter characters of an emphasis match -/
+structure EmphCh (s : Str) (m : CoreM) : Prop where
+  star : m.delimiter = '*' ∨ m.delimiter = '_'
+  opening : ∀ k, m.start ≤ k → k < m.ts → s[k]? = some m.delimiter
+  closing : ∀ k, m.te ≤ k → k < m.stop → s[k]? = some m.delimiter
+
+structure CInv (s : Str) (hi : Nat) (ds : List Delim) (ms : List CoreM) : Prop where
+  dinv : DInv s 0 hi ds ms
+  eok : ∀ d ∈ ds, EOK s d
+  ch : ∀ m ∈ ms, isEmphM m → EmphCh s m
+
+theorem slice_head {α} (s : List α) (a b : Nat) (h : a < b) : (slice s a b).head? = s[a]? := by
+  unfold slice
+  rw [List.head?_take, if_neg (by omega), List.head?_drop]
+
+theorem slice_eq_replicate (s : Str) (a b : Nat) (ch : Char) (hb : b ≤ s.length)
+    (h : ∀ k, a ≤ k → k < b → s[k]? = some ch) : slice s a b = List.replicate (b - a) ch := by
+  apply List.ext_getElem?
+  intro k
+  unfold slice
+  rw [List.getElem?_take, List.getElem?_replicate]
+  split
+  · rw [List.getElem?_drop]; exact h _ (by omega) (by omega)
+  · rfl
+
+theorem EOK_shrink (s : Str) (d d' : Delim) (n : Nat) (h : EOK s d) (hOK : DelimOK d)
+    (he : d'.emph = d.emph) (ht : d'.type = d.type.drop n) (hn : d'.number + n = d.number)
+    (hs : d.start ≤ d'.start) (hp : d'.stop ≤ d.stop) : EOK s d' := by
+  intro hemph
+  obtain ⟨ch, h1, h2, h3⟩ := h (he ▸ hemph)
+  refine ⟨ch, ?_, h2, fun k hk1 hk2 => h3 k (by omega) (by omega)⟩
+  rw [ht, h1, List.drop_replicate]
+  congr 1; omega
+
+theorem CInv.step {s : Str} {hi : Nat} (hhi : hi ≤ s.length) {ds ms curr ds' ms' from'}
+    (h : CInv s hi ds ms) (hr : StepRel s ds ms curr ds' ms' from') : CInv s hi ds' ms' := by
+  refine ⟨h.dinv.step hhi hr, ?_, ?_⟩
+  · cases hr with
+    | erased _ _ _ c hc => exact fun d hd => h.eok d (List.mem_of_mem_eraseIdx hd)
+    | skipped _ _ _ c hc => exact h.eok
+    | matched A B C o c _ dch hoe hoo hce hcc hcb hs =>
+      obtain ⟨m1, hA, h1⟩ := Chain.split h.dinv.chain
+      obtain ⟨hm1, hoOK, h2⟩ := h1
+      obtain ⟨m2, hB, h3⟩ := Chain.split h2
+      obtain ⟨hm2, hcOK, hCC⟩ := h3
+      obtain ⟨hn1, hn2, hn3, hn4⟩ := emphN_bounds o c hoOK hcOK
+      intro d' hd'
+      rcases List.mem_append.1 hd' with hd' | hd'
+      · exact h.eok d' (by simp [hd'])
+      rcases List.mem_append.1 hd' with hd' | hd'
+      · rcases shrink_spec o (emphN o c) false hoOK hn1 hn3 with ⟨e1, _⟩ | ⟨o', e1, _, hnum, hst, hsp, hem, _, _, _, hty⟩
+        · rw [e1] at hd'; cases hd'
+        · rw [e1] at hd'; simp only [List.mem_singleton] at hd'; subst hd'
+          simp only [Bool.false_eq_true, if_false] at hst hsp
+          exact EOK_shrink s o d' _ (h.eok o (by simp)) hoOK hem hty hnum (by omega) (by omega)
+      rcases List.mem_append.1 hd' with hd' | hd'
+      · rcases shrink_spec c (emphN o c) true hcOK hn1 hn4 with ⟨e1, _⟩ | ⟨c', e1, _, hnum, hst, hsp, hem, _, _, _, hty⟩
+        · rw [e1] at hd'; cases hd'
+        · rw [e1] at hd'; simp only [List.mem_singleton] at hd'; subst hd'
+          simp only [if_true] at hst hsp
+          exact EOK_shrink s c d' _ (h.eok c (by simp)) hcOK hem hty hnum (by omega) (by omega)
+      · exact h.eok d' (by simp [hd'])
+  · cases hr with
+    | erased _ _ _ c hc => exact h.ch
+    | skipped _ _ _ c hc => exact h.ch
+    | matched A B C o c _ dch hoe hoo hce hcc hcb hs =>
+      obtain ⟨m1, hA, h1⟩ := Chain.split h.dinv.chain
+      obtain ⟨hm1, hoOK, h2⟩ := h1
+      obtain ⟨m2, hB, h3⟩ := Chain.split h2
+      obtain ⟨hm2, hcOK, hCC⟩ := h3
+      obtain ⟨hn1, hn2, hn3, hn4⟩ := emphN_bounds o c hoOK hcOK
+      have ho1 := hoOK.span; have hc1 := hcOK.span
+      have ho2 := hoOK.pos; have hc2 := hcOK.pos
+      intro m hm he
+      rcases List.mem_cons.1 hm with rfl | hm
+      · obtain ⟨cho, hto, hro1, hro2⟩ := h.eok o (by simp) hoe
+        obtain ⟨chc, htc, hrc1, hrc2⟩ := h.eok c (by simp) hce
+        have hhead := (closedBy_true_head o c hcb).1
+        have hcc' : cho = chc := by
+          rw [hto, htc] at hhead
+          have e1 : o.number = (o.number - 1) + 1 := by omega
+          have e2 : c.number = (c.number - 1) + 1 := by omega
+          rw [e1, e2, List.replicate_succ, List.replicate_succ] at hhead
+          simpa using hhead
+        have hd : dch = cho := by
+          have := hro2 (o.stop - emphN o c) (by omega) (by omega)
+          rw [hs] at this
+          exact Option.some.inj this
+        refine ⟨?_, fun k hk1 hk2 => ?_, fun k hk1 hk2 => ?_⟩
+        · simp only [emphMatch]; rw [hd]; exact hro1
+        · simp only [emphMatch] at hk1 hk2 ⊢
+          rw [hd]; exact hro2 k (by omega) (by omega)
+        · simp only [emphMatch] at hk1 hk2 ⊢
+          rw [hd, hcc']; exact hrc2 k (by omega) (by omega)
+      · exact h.ch m hm he
+
+theorem CInv.sub {s : Str} {hi : Nat} {ds ds' : List Delim} {ms : List CoreM} (h : CInv s hi ds ms)
+    (hD : DInv s 0 hi ds' ms) (hsub : ∀ d ∈ ds', d ∈ ds) : CInv s hi ds' ms :=
+  ⟨hD, fun d hd => h.eok d (hsub d hd), h.ch⟩
+
+theorem processEmphasis_cinv (s : Str) (sb : Option Nat) (hi : Nat) (hhi : hi ≤ s.length)
+    (ds : List Delim) (ms : List CoreM) (h : CInv s hi ds ms) :
+    ∃ ds' ms', processEmphasis s sb ds ms = .ok (ds', ms') ∧ CInv s hi ds' ms' := by
+  obtain ⟨ds', ms', h1, h2⟩ := processEmphasis_inv s sb 0 hi hhi (CInv s hi)
+    (fun _ _ h => h.dinv.chain) (fun _ _ _ _ _ _ h hr => h.step hhi hr) ds ms h
+  refine ⟨_, _, h2, ?_⟩
+  cases sb with
+  | none => exact h1.sub h1.dinv.nil (fun d hd => by cases hd)
+  | some b => exact h1.sub (h1.dinv.take b) (fun d hd => List.mem_of_mem_take hd)
+
+theorem EOK_deactivate (s : Str) (d : Delim) (h : EOK s d) : EOK s (deactivate d) := by
+  obtain ⟨h1, h2, h3, h4, h5, _⟩ := deactivate_fields d
+  intro he
+  rw [h5] at he
+  rw [h1, h2, h3, h4]
+  exact h he
+
+theorem findLinkImage_cinv (s : Str) (offset : Nat) (ds : List Delim) (ms : List CoreM) (fn : Footnotes.Table)
+    (hi : Nat) (hD : CInv s hi ds ms) (hhi : hi ≤ s.length) (ho : s[offset]? = some ']') :
+    ∃ i' ds' ms', findLinkImage s offset ds ms fn = .ok (i', ds', ms') ∧ offset ≤ i' ∧ i' < s.length ∧
+      CInv s hi ds' ms' ∧ Harmless s (i' + 1) := by
+  have ho' : offset < s.length := (List.getElem?_eq_some_iff.1 ho).1
+  have hJ0 : Harmless s (offset + 1) := ⟨by omega, ']', by simpa using ho, by decide, by decide⟩
+  unfold findLinkImage
+  cases hl : lastBracket ds 0 none with
+  | none => exact ⟨_, _, _, rfl, Nat.le_refl _, ho', hD, hJ0⟩
+  | some i =>
+    simp only
+    have hi' : i < ds.length := by
+      rcases lastBracket_spec ds 0 none i hl with h | h
+      · cases h
+      · omega
+    rw [List.getElem?_eq_getElem hi']
+    simp only
+    have herase : CInv s hi (ds.eraseIdx i) ms :=
+      hD.sub (hD.dinv.eraseIdx i) (fun d hd => List.mem_of_mem_eraseIdx hd)
+    split
+    · exact ⟨_, _, _, rfl, Nat.le_refl _, ho', herase, hJ0⟩
+    · cases hm : matchLinkImage s offset ds[i] fn with
+      | none => exact ⟨_, _, _, rfl, Nat.le_refl _, ho', herase, hJ0⟩
+      | some m =>
+        simp only
+        obtain ⟨ds1, ms1, hpe, hD1⟩ := processEmphasis_cinv s (some i) hi hhi ds ms hD
+        rw [hpe]
+        simp only
+        obtain ⟨h1, h2, hk⟩ := matchLinkImage_stop s offset _ fn m ho' hm
+        obtain ⟨h3, h4⟩ := matchLinkImage_last s offset _ fn m ho hm
+        have hne : ¬ isEmphM m := by
+          unfold isEmphM
+          rcases hk with hk | hk <;> rw [hk] <;> simp
+        have hJ : Harmless s (m.stop - 1 + 1) := by
+          refine ⟨by omega, ?_⟩
+          rcases h4 with h4 | h4
+          · exact ⟨')', by simpa using h4, by decide, by decide⟩
+          · exact ⟨']', by simpa using h4, by decide, by decide⟩
+        have hcons : ∀ ds2, CInv s hi ds2 ms1 → CInv s hi ds2 (m :: ms1) := fun ds2 h =>
+          ⟨h.dinv.cons_other m hne, h.eok, fun m' hm' he => by
+            rcases List.mem_cons.1 hm' with rfl | hm'
+            · exact absurd he hne
+            · exact h.ch m' hm' he⟩
+        refine ⟨_, _, _, rfl, by omega, by omega, ?_, hJ⟩
+        split
+        · refine hcons _ ⟨hD1.dinv.deactivate, fun d' hd' => ?_, hD1.ch⟩
+          obtain ⟨d, hd, rfl⟩ := List.mem_map.1 hd'
+          exact EOK_deactivate s d (hD1.eok d hd)
+        · exact hcons _ hD1
+
+theorem mkDelim_not_emph (s : Str) (a b : Nat) (hab : a < b) (c0 : Char) (h : s[a]? = some c0)
+    (h1 : c0 ≠ '*') (h2 : c0 ≠ '_') : EOK s (mkDelim a b s) := by
+  intro he
+  simp only [mkDelim, slice_head s a b hab, h, Bool.or_eq_true, beq_iff_eq, Option.some.injEq] at he
+  rcases he with he | he
+  · exact absurd he h1
+  · exact absurd he h2
+
+theorem CInv.push_ok {s : Str} {hi hi' : Nat} {ds : List Delim} {ms : List CoreM} (h : CInv s hi ds ms)
+    (a b : Nat) (h1 : hi ≤ a) (hab : a < b) (h2 : b ≤ hi') (hb : b ≤ s.length) (he : EOK s (mkDelim a b s)) :
+    CInv s hi' (ds ++ [mkDelim a b s]) ms :=
+  ⟨h.dinv.push a b h1 hab h2 hb, fun d hd => by
+    rcases List.mem_append.1 hd with hd | hd
+    · exact h.eok d hd
+    · simp only [List.mem_singleton] at hd; subst hd; exact he, h.ch⟩
+
+theorem loopInv_cinv (s : Str) (fn : Footnotes.Table) (hbs : '\\' ∉ s) :
+    LoopInv s fn (CInv s) (RunOf s) (Harmless s) False where
+  mono := fun hh h => ⟨h.dinv.mono hh, h.eok, h.ch⟩
+  push_run := fun a b ch h hR h1 hab h2 hb => h.push_ok a b h1 hab h2 hb (fun _ =>
+    ⟨ch, by simp only [mkDelim]; exact slice_eq_replicate s a b ch hb hR.2, hR⟩)
+  push_esc := fun _ _ _ hE => hE.elim
+  push_br := fun i h hc h1 h2 hb => h.push_ok i (i + 1) h1 (by omega) h2 hb
+    (mkDelim_not_emph s i (i + 1) (by omega) '[' hc (by decide) (by decide))
+  push_img := fun i h hJ _ h1 h2 hb => by
+    obtain ⟨hi1, c0, hc0, hc1, hc2⟩ := hJ
+    exact h.push_ok (i - 1) (i + 1) h1 (by omega) h2 hb (mkDelim_not_emph s (i - 1) (i + 1) (by omega) c0 hc0 hc1 hc2)
+  link := fun {hi ds ms} offset h hhi ho => findLinkImage_cinv s offset ds ms fn hi h hhi ho
+  R_new := fun i c hc hcc => ⟨hcc, fun k hk1 hk2 => by
+    have : k = i := by omega
+    subst this; exact hc⟩
+  R_ext := fun a i ch hR hc => ⟨hR.1, fun k hk1 hk2 => by
+    by_cases hk : k < i
+    · exact hR.2 k hk1 hk
+    · have : k = i := by omega
+      subst this; exact hc⟩
+  J_bang := fun i hc => ⟨by omega, '!', by simpa using hc, by decide, by decide⟩
+  J_bs := fun i hc => ⟨by omega, '\\', by simpa using hc, by decide, by decide⟩
+  J_esc := fun hE _ => hE.elim
+  J_code := fun p cm h => by
+    obtain ⟨h1, h2⟩ := codeSearch_last s p cm h
+    exact ⟨h1, '`', h2, by decide, by decide⟩
+  E_bs := fun i hc => hbs (List.mem_of_getElem? hc)
+
+theorem findCoreTokens_cinv (s : Str) (fn : Footnotes.Table) (hbs : '\\' ∉ s) :
+    ∃ ms codes, findCoreTokens s fn = .ok (ms.reverse, codes) ∧ CInv s s.length [] ms := by
+  have h0 : CInv s 0 [] [] :=
+    ⟨⟨Nat.le_refl _, fun m hm => (by cases hm), List.Pairwise.nil⟩, fun d hd => (by cases hd), fun m hm => (by cases hm)⟩
+  obtain ⟨st, ds, h1, hds, h2⟩ := findCoreTokens_loop (loopInv_cinv s fn hbs) h0
+  have hms : (if st.inRun.isSome then pushDelim st (mkDelim st.start s.length s) else st).ms = st.ms := by
+    split <;> rfl
+  obtain ⟨ds', ms', hpe, hD⟩ := processEmphasis_cinv s none s.length (Nat.le_refl _) ds st.ms h2
+  refine ⟨ms', (if st.inRun.isSome then pushDelim st (mkDelim st.start s.length s) else st).codes.reverse, ?_,
+    hD.sub hD.dinv.nil (fun d hd => by cases hd)⟩
+  unfold findCoreTokens
+  rw [h1]
+  simp only
+  rw [hms, ← hds, hpe]
+
+/-- In a text without a backslash, the delimiter characters of every emphasis match are all equal
+    to its `delimiter`, which is `*` or `_`. -/
+theorem emphasis_chars (s : Str) (fn : Footnotes.Table) (hbs : '\\' ∉ s) (ms : List CoreM) (codes : List CodeM)
+    (h : findCoreTokens s fn = .ok (ms, codes)) : ∀ m ∈ ms, isEmphM m → EmphCh s m := by
+  obtain ⟨ms', codes', h', hD⟩ := findCoreTokens_cinv s fn hbs
+  rw [h] at h'
+  cases h'
+  intro m hm he
+  exact hD.ch m (List.mem_reverse.1 hm) he
 
 end Mistletoe.Core
